@@ -409,7 +409,8 @@ func c18Observe(c *Ctx, src, stdin string, cli bool, back map[string]string) (*c
 		}
 	}
 	// compare under canonical equivalence (diagnostics are not normalised by the implementation)
-	rec.stdout = norm.NFC.String(rec.stdout)
+	// (stdout is compared byte for byte: the print statement itself normalises, and whether it does
+	// must not depend on the transform)
 	rec.diag = norm.NFC.String(rec.diag)
 	return rec, true
 }
@@ -487,6 +488,7 @@ func c18Case(c *Ctx, r *Rng, gen, src, stdin string) *Case {
 	// family (e) applied everywhere at once: every composite sub-expression parenthesised
 	// as the ladder groups it (printed from the reference tree)
 	add("parentheses-full", ref.PrintOpts{Full: true}.Program(prog), nil)
+	add("parentheses-full-atoms", ref.PrintOpts{Full: true, Atoms: true}.Program(prog), nil)
 	// all six combined: apply token-level transforms in sequence on re-tokenised text
 	cur := tp.canonical()
 	allBack := map[string]string{}
@@ -594,10 +596,10 @@ func c18Run(c *Ctx) {
 func init() {
 	register(&CheckDef{
 		ID:   "C18",
-		Rule: "program groups: the shipped examples, the hand-written scoping/closure programs and seeded generated programs (valid, and with planted runtime faults), each re-rendered from the spec lexer's tokens and paired with 14 transformed variants: two random applications each of (a) layout: blanks, tabs, CR-LF, block and line comments, line breaks between any tokens except inside a ধরি...; span, (b) digits of numeric literals flipped between scripts, (c) && / || exchanged with the word spellings, (d) consistent renaming of declared variables, functions and parameters to fresh Latin or Bangla identifiers (not property keys, not built-ins), (e) 1-3 redundant parenthesis pairs around value-producing sub-expressions taken from the reference parser's node spans (never an assignment target) and, once, every composite sub-expression parenthesised as the ladder groups it, (f) dead code (if(false), while(false), unused functions, else of if(true), statements after a return) containing random possibly-faulting statements; plus all six combined. Original and variant must agree on stdout bytes, exit status and first diagnostic (line numbers deleted, renamed identifiers mapped back, quoted expression renderings deleted). Non-trivial = distinct original program whose variants were all compared.",
+		Rule: "program groups: the shipped examples, the hand-written scoping/closure programs and seeded generated programs (valid, and with planted runtime faults), each re-rendered from the spec lexer's tokens and paired with 15 transformed variants: two random applications each of (a) layout: blanks, tabs, CR-LF, block and line comments, line breaks between any tokens except inside a ধরি...; span, (b) digits of numeric literals flipped between scripts, (c) && / || exchanged with the word spellings, (d) consistent renaming of declared variables, functions and parameters to fresh Latin or Bangla identifiers (not property keys, not built-ins), (e) 1-3 redundant parenthesis pairs around value-producing sub-expressions taken from the reference parser's node spans (never an assignment target) and, once, every composite sub-expression parenthesised as the ladder groups it, (f) dead code (if(false), while(false), unused functions, else of if(true), statements after a return) containing random possibly-faulting statements; plus all six combined. Original and variant must agree on stdout bytes, exit status and first diagnostic (line numbers deleted, renamed identifiers mapped back, quoted expression renderings deleted). Non-trivial = distinct original program whose variants were all compared.",
 		Assumptions: []string{"no expected output is needed (metamorphic); transforms never use the code under test; programs exceeding 300000 evaluation steps are skipped"},
 		Run:         c18Run,
 		Judge:       c18Judge,
-		MustCount:   func(c *Ctx) []string { return []string{"pairs:layout", "pairs:digit-script", "pairs:logical-synonyms", "pairs:rename", "pairs:parentheses", "pairs:dead-code", "pairs:parentheses-full", "pairs:all-combined", "originals_clean", "originals_failing", "gen:shipped-examples", "gen:operator-chains", "cli_runs"} },
+		MustCount:   func(c *Ctx) []string { return []string{"pairs:layout", "pairs:digit-script", "pairs:logical-synonyms", "pairs:rename", "pairs:parentheses", "pairs:dead-code", "pairs:parentheses-full", "pairs:parentheses-full-atoms", "pairs:all-combined", "originals_clean", "originals_failing", "gen:shipped-examples", "gen:operator-chains", "cli_runs"} },
 	})
 }
